@@ -7,6 +7,7 @@ EmitFs == PrintT(ToJson([f |-> fs, op |-> op', arg |-> arg', res |-> res', t |->
 FView == <<fs, depth>>
 LastCases == {<<size, num>> : size \in {0, 1, 2, 9, 10}, num \in {0, 1, 2, 8, 9, 10, 11, 100000}}
 ASSUME PrintT(ToJson([last |-> {[size |-> x[1], num |-> x[2], ref |-> LastBytes(x[1], x[2])] : x \in LastCases},
-                      errno |-> {[c |-> x, swallowed |-> Swallowed(x.fn, x.e, x.isdir)] : x \in ErrnoCases}]))
+                      errno |-> {[c |-> x, swallowed |-> Swallowed(x.fn, x.e, x.isdir)] : x \in ErrnoCases},
+                      links |-> {[c |-> x, ref |-> LinkRef(x)] : x \in LinkCases}]))
 ASSUME OnlyTwoSwallowed
 =============================================================================
